@@ -84,7 +84,12 @@ class Fragment:
             nonlocal separated
             if node.is_text:
                 text_node = cast("TextNode", node)
-                text.append(text_node.text[max(from_, pos) - pos : to - pos])
+                # positions count UTF-16 code units, not code points
+                text.append(
+                    text_node.text.encode("utf-16-le")[
+                        2 * (max(from_, pos) - pos) : 2 * (to - pos)
+                    ].decode("utf-16-le"),
+                )
                 separated = not block_separator
             elif node.is_leaf:
                 if leaf_text:
